@@ -255,6 +255,7 @@ class CheckingReporter(object):
 def real_runs(mon, lab, rng, n, tier):
     for i in range(n):
         gen = {"outcomes": OUTCOMES + ["abort"], "weights": {"abort": 0.3}} if i % 5 == 0 else {}
+        gen["p_empty_examples"] = 0.0
         gen["p_stepless"] = 0.0     # childless scenarios are out of scope and would poison their parents
         case = RB.gen_case(rng, gen=gen, p_stop=0.3, p_dry=0.15)
         ref = {"case": case}
@@ -318,7 +319,7 @@ def histories(mon, lab, rng, n):
     from behave.contrib.scenario_autoretry import patch_scenario_with_autoretry
     for i in range(n):
         outs = [o for o in OUTCOMES if o not in ("ki", "skip")]
-        case = RB.gen_case(rng, tags=False, p_stop=0, p_dry=0, gen={"max_features": 1, "outcomes": outs, "p_nonpass": 0.3, "p_stepless": 0.0})
+        case = RB.gen_case(rng, tags=False, p_stop=0, p_dry=0, gen={"max_features": 1, "outcomes": outs, "p_nonpass": 0.3, "p_stepless": 0.0, "p_empty_examples": 0.0})
         program = case["program"]
         insts = [x for f in program["features"] for x in iter_scenario_instances(f)]
         victim = rng.choice(insts)["name"]
